@@ -281,7 +281,7 @@ func (t *c07Tuple) rowsTerm(total int64, rows map[string][2]int64, err error) Te
 	}
 	var out []Term
 	n := 0
-	for _, f := range t.tab.funcs {
+	for _, f := range t.funcOrder() {
 		if v, ok := rows[f]; ok {
 			n++
 			out = append(out, L(S(f), Z(v[0]), Z(v[1])))
